@@ -214,7 +214,11 @@ func runCaseR(m *Model, c Case) ([]Diff, string) {
 		if c.ErrOnly && derr == nil {
 			return cmp("formatted:"+c.Format+" (error only)", realv[strings.LastIndex(realv, " e="):], modelv[strings.LastIndex(modelv, " e="):]), realv
 		}
-		return cmp("formatted:"+c.Format, realv, modelv), realv
+		d := cmp("formatted:"+c.Format, realv, modelv)
+		if c.Format == "json" && err == nil && derr == nil {
+			d = append(d, jsonBytes(m, "outjson "+b01(c.Fail)+" "+c.Doc0(), buf.Bytes())...)
+		}
+		return d, realv
 	case "rootf":
 		t := parseTreeEnc(c.Tree)
 		var buf bytes.Buffer
@@ -230,7 +234,11 @@ func runCaseR(m *Model, c Case) ([]Diff, string) {
 			realv = "decode-error:" + derr.Error() + " raw=" + hx(buf.Bytes())
 		}
 		modelv := m.Ask("rootf " + addMirror(t).Enc())
-		return cmp("formatted-root:"+c.Format, realv, modelv), realv
+		d := cmp("formatted-root:"+c.Format, realv, modelv)
+		if c.Format == "json" && err == nil && derr == nil {
+			d = append(d, jsonBytes(m, "rootjson "+addMirror(t).Enc(), buf.Bytes())...)
+		}
+		return d, realv
 	case "walk":
 		var vs []string
 		k := 0
@@ -467,4 +475,14 @@ func runVerify(m *Model, c Case) ([]Diff, string) {
 		modelv = m.Ask("verify " + hxs(target) + " " + b01(c.Strict) + " " + encFS(jail, before) + " " + b01(c.Fail) + " " + c.Doc0())
 	}
 	return append(d, cmp("verify", realv, modelv)...), realv
+}
+
+// jsonBytes compares the JSON text the real code printed with the model's (Gtree.Model.Json, the subject of
+// the C04_json_* theorems), byte for byte. Names that are not valid UTF-8 are outside that model.
+func jsonBytes(m *Model, ask string, real []byte) []Diff {
+	mv := m.Ask(ask)
+	if strings.HasPrefix(mv, "j=invalid-utf8") {
+		return nil
+	}
+	return cmp("json text", "j="+hx(real)+" e=nil", mv)
 }
